@@ -185,7 +185,7 @@ func cmdCheck(verifDir, repoDir string, args []string) int {
 	tGen := time.Since(t0) - tLoad
 	tmp, _ := os.MkdirTemp("", "rtpverify-q")
 	defer os.RemoveAll(tmp)
-	cfg := &solverCfg{quickTO: 10, fallback: 10, seed: seed, workers: runtime.NumCPU(), tmp: tmp, keepFiles: keep}
+	cfg := &solverCfg{quickTO: 20, fallback: 20, seed: seed, workers: (runtime.NumCPU() + 1) / 2, tmp: tmp, keepFiles: keep}
 	if tier == "thorough" {
 		cfg.quickTO, cfg.fallback = 60, 120
 	}
